@@ -228,6 +228,15 @@ def main(tier, seed):
         "samples": [{"case": c, "impl": i, "model": m} for c, i, m in list(zip(cases, impl, model))[:2]],
         "model_impl_disagreements": len(diffs),
     })
+    # the last handle dies with its thread
+    try:
+        pout = run_batch(vlib.HARNESS, "cpingpanic", ["x"], timeout=60)
+    except Exception as e:      # noqa
+        pout = ["TIMEOUT %s" % e]
+    chk.cov["last_handle_dropped_by_panicking_thread"] = pout[0][:100] if pout else "no output"
+    if not pout or pout[0].strip() != "callbacks=1 removed=1":
+        chk.violation("oracle-panicdrop", "C03 violated on the real code: the last Ping handle was dropped by a thread that pinged and then panicked: the ping must be "
+                      "delivered once and the source must remove itself\nping case: panicdrop\n# result: %s" % (pout[0][:200] if pout else ""))
     # free-running race search below the granularity of the scheduler: the last two handles dropped by two threads at the same instant
     rounds = 4000 if tier == "quick" else 40000
     try:
@@ -268,6 +277,11 @@ def main(tier, seed):
 
 
 def replay(path):
+    if "ping case: panicdrop" in open(path).read():
+        vlib.build_harness()
+        out = run_batch(vlib.HARNESS, "cpingpanic", ["x"], timeout=60)
+        print(out[0] if out else "no output")
+        return 0 if out and out[0].strip() == "callbacks=1 removed=1" else 1
     if "stress case:" in open(path).read():
         rounds = [l.split(":", 1)[1].strip() for l in open(path) if l.startswith("stress case:")][0]
         vlib.build_harness()
